@@ -400,6 +400,11 @@ func tamper(t *testing.T, env *report.Env, rep *report.Report, base string) {
 		if err != nil {
 			return
 		}
+		if kind == "foreign-key" {
+			// "the database opens only with the key-encryption key it was created with"
+			rep.Violate(sec.Name, fmt.Sprintf("tamper/foreign-key-opens: file %d", fileIdx), fmt.Sprintf("file %d opened without error with a key-encryption key it was not created with (contents as original: %v)", fileIdx, hx.DumpKey(d) == orig), map[string]any{"kind": kind, "file": fileIdx})
+			return
+		}
 		if got := hx.DumpKey(d); got != orig {
 			rep.Violate(sec.Name, fmt.Sprintf("tamper/%s: file %d %s", kind, fileIdx, detail), fmt.Sprintf("%s of file %d (%s): opens without error as %s, original contents %s", kind, fileIdx, detail, got, orig), map[string]any{"kind": kind, "file": fileIdx, "detail": detail})
 		}
@@ -427,7 +432,10 @@ func tamper(t *testing.T, env *report.Env, rep *report.Report, base string) {
 			sec.Extra["truncations"]++
 		}
 		try("foreign-key", i, "opened with another key", data, kekB, orig)
-		sec.Extra["foreign_key_opens"]++
+		refusing := &downAEAD{inner: kekA}
+		refusing.down.Store(true)
+		try("foreign-key", i, "opened with a key service that refuses every request", data, refusing, orig)
+		sec.Extra["foreign_key_opens"] += 2
 		var wa wrapped
 		json.Unmarshal(data, &wa)
 		for j, other := range [][]byte{data2, data3} {
